@@ -1,6 +1,7 @@
 #!/usr/bin/env python3
-import json, sys
-e=json.load(open('/verif/evidence/%s.json' % sys.argv[1]))
+import json, os, sys
+ROOT = os.path.dirname(os.path.dirname(os.path.abspath(__file__)))
+e=json.load(open(os.path.join(ROOT, 'evidence', '%s.json' % sys.argv[1])))
 for o in e['coverage']['obligation_details']:
     print(o['obligation'], '|', o.get('result'), '| paths',o.get('paths'),'q',o.get('queries'),'solver',o.get('solver_s'),'wall',o['wall_s'], o.get('reasons'), o.get('path_outcomes'), (o.get('error') or '')[-600:])
 for h in e['coverage']['harness_errors']: print('HE', h[:1500])
